@@ -475,9 +475,10 @@ fn a_prefix3_scan<const N: usize>(ci: bool) {
 }
 
 //@ harness: a_prefix3_scan_n4
-//@ props: C13 C08 C02 C01
+//@ props: C13 C08
 //@ tier: quick
-//@ cost: 400
+//@ mem: 26
+//@ cost: 900
 //@ bound: program with prefix=[c1,c2,c3] (all scalar values, self-overlapping literals included), operation Nothing, minimum_length=3; input <= 4 chars over all scalar values; start 0..=len: found iff the literal occurs at or after start, at its leftmost occurrence
 //@ encodes: ReMatcher::matches(prefix-scan,minimum-length) ReMatcher::match_at
 std_stubs! { #[kani::unwind(8)] pub(crate) fn a_prefix3_scan_n4() { a_prefix3_scan::<4>(false) } }
